@@ -13,6 +13,7 @@ func init() {
 }
 
 func checkC15(r *Report, p *Program) {
+	smallVerbClauses(r, p, "R15.9")
 	r.Explanation = "Decides the agreement of the two sibling code paths — what is listed for the hook (GetRelatedObjects) and what wakes the parent (matchesRelatedRule): (R15.1) both classify a rule with determineSelectionType, whose table is: invalid ⇔ labelSelector ∧ (namespace ∨ names), names-style ⇔ namespace ∨ names, else labels; both switches cover every selection-type constant and return the classifier's error for invalid; (R15.2) the trigger predicate can reject an object only for a reason the listing side also applies (kind/version, foreign namespace for a namespaced parent, the rule's namespace, name membership, label selector) — so listed ⊆ triggers —, a namespaced parent with a foreign rule namespace is an error on both sides, empty Names means all on both sides; groups are initialised without wiping earlier rules' objects; (R15.3) the kind compared is that of the rule's resource on both sides; (R15.4) the customize hook is asked only on a miss of a per-manager cache keyed (parent UID, generation), the same key for Get and Set; (R15.5) the related map goes through the same namespace confinement as children."
 	r.NotDecided = "label selector semantics (apimachinery); cache TTL timing; cluster contents."
 	r15_1(r, p)
